@@ -84,7 +84,7 @@ var kindNum = map[string]uint64{
 }
 
 func isPBStruct(t types.Type) (*types.Named, bool) {
-	n, ok := t.(*types.Named)
+	n, ok := types.Unalias(t).(*types.Named)
 	if !ok {
 		return nil, false
 	}
@@ -99,7 +99,7 @@ func isPBStruct(t types.Type) (*types.Named, bool) {
 }
 
 func isPBPtr(t types.Type) (*types.Named, bool) {
-	p, ok := t.(*types.Pointer)
+	p, ok := types.Unalias(t).(*types.Pointer)
 	if !ok {
 		return nil, false
 	}
